@@ -25,7 +25,7 @@ import ExoVerif.Model.Epochs
     x/epochs/keeper/genesis.go       ExportGenesis = AllEpochInfos, InitGenesis = AddEpochInfo per entry.
   Items of the per-epoch queues are opaque strings (the three value types are all `repeated bytes`); a maturity
   entry additionally lists the undelegation record ids it holds (`QEntry.recs`).
-  Assets, oracle, mint and fee-distribution have no model: differential run only.
+  x/assets is modelled in Model/GenesisAssets.lean, x/exomint, x/feedistribution and x/oracle in Model/GenesisMods.lean.
 -/
 namespace ExoVerif.Genesis
 open ExoVerif.Epochs
